@@ -247,7 +247,7 @@ def random_trace(rep, nhist):
             st = steps[k] if k < len(steps) else o
             e = dict(ev)
             if ev["ev"] == "update_currency":
-                e["ret"] = bool(st.get("ret")) if st.get("outcome") == "returned" else "panic"
+                e["ret"] = ("true" if st.get("ret") else "false") if st.get("outcome") == "returned" else "panic"
             else:
                 ss = proj.slots_of_step(st)
                 if ss is None:
